@@ -308,6 +308,8 @@ func ruleT5(r *Run) {
 		}
 		if ok, how := p.reportsOrDelegates(info, ts.deflt.Body, ts.tagObj); ok {
 			r.Ok(key, ts.deflt.Pos(), "default "+how)
+		} else if ok, how := p.followedByReport(ts); ok && !endsInReturn(ts.deflt.Body) {
+			r.Ok(key, ts.deflt.Pos(), "default falls through to "+how)
 		} else {
 			r.Viol(key, ts.deflt.Pos(), "default clause of a wire-tag switch neither reports an error nor delegates the tag")
 		}
@@ -322,20 +324,19 @@ func (p *Prog) followedByReport(ts *tagSwitch) (bool, string) {
 	if !ok {
 		return false, ""
 	}
-	// every case clause must leave the function (return) for the tail to be the "default"
-	for _, st := range ts.sw.Body.List {
-		cc := st.(*ast.CaseClause)
-		if len(cc.Body) == 0 {
-			return false, ""
-		}
-		if _, ok := cc.Body[len(cc.Body)-1].(*ast.ReturnStmt); !ok {
-			return false, ""
-		}
-	}
+	// tags not handled by a clause reach the statements after the switch
 	for i, s := range blk.List {
 		if s == ts.sw {
 			return p.reportsOrDelegates(info, blk.List[i+1:], ts.tagObj)
 		}
 	}
 	return false, ""
+}
+
+func endsInReturn(body []ast.Stmt) bool {
+	if len(body) == 0 {
+		return false
+	}
+	_, ok := body[len(body)-1].(*ast.ReturnStmt)
+	return ok
 }
